@@ -9,7 +9,7 @@
    Uniform result tuples <<"ok", x>>, <<"err">>, <<"PANIC">> (TLC cannot compare a record with a string).
    The properties are the C17 clauses on the explorer's abstraction (ReceiverOps); violations are
    DESIGN results - a verdict needs the replay of the history against the real handler.
-   The five Fix* constants select the algorithm: all TRUE = the CURRENT code (after the fix commits named at
+   The Fix* constants select the algorithm: all TRUE = the CURRENT code (after the fix commits named at
    the constants), all FALSE = the algorithm as originally written, kept for the documented design
    counterexamples (the ReceiverImpl_cex_... configs). *)
 EXTENDS Integers, Sequences, FiniteSets, TLC, Json, ReceiverOps
@@ -33,8 +33,8 @@ CONSTANTS Tracks,        \* set of track names (strings)
           FixDropBound,    \* 34c3a50: seqCounters.add bounds nrToDrop by the fill
           FixDeriveGuards, \* 3d9bf84: deriveAndSetBitrates / deriveAndSetFrameRates skip tracks without segments
           FixLateTrack,    \* cdab72e: a buffer created after start bumps _nrTracks; every Representation is checked
-          FixDeleteOnAccept \* NOT in the code yet (proposed_fixes/C17-delete-after-accept.diff; current code = FALSE): the handler
-                           \* removes <n - maxNrBufSegs> only when the upload has been accepted, not when its first fragment arrives
+          FixDeleteOnAccept \* 59900e3: the handler removes <n - maxNrBufSegs> only when the upload has been accepted, not when its
+                           \* first fragment arrives (a refused upload deleted a segment that was listed afterwards)
 VARIABLES upl,      \* the chosen element of UploadSets
           sw,       \* the chosen element of Windows
           pos,      \* [Tracks -> Nat] uploads sent so far per track
